@@ -1,14 +1,15 @@
 #!/bin/bash
-# usage: tools/run_demo.sh <seed name, e.g. C04-a> <source dir>
-# Runs the author's demonstration of a seeded change against a source tree.  The demos were written in scratch directories
-# /tmp/seed_Cxx_scratch (round 1) or /tmp/seed2_Cxx_scratch (round 2) and create their work files there: the directory is
-# made for the run and removed afterwards.  Never run a demo without it: with an empty work dir some fall back to "/".
+# usage: tools/run_demo.sh <seed name, e.g. C01-e> <source dir>
+# Runs the author's demonstration of a seeded change against a source tree (exit 0: the property held in the scenario, 1: violated).
+# The demonstrations were written in their authors' scratch directories (/tmp/seedN_Cxx_scratch) and keep their working files
+# there: the directories they name are created first and removed afterwards.
 set -u
 name="$1"; src="$2"
-demo=$(ls /verif/seeded/"$name"/demo* 2>/dev/null | head -1)
-[ -n "$demo" ] || { echo "no demo for $name"; exit 2; }
-dirs=$(grep -o '/tmp/seed2\?_C[0-9][0-9]_scratch' "$demo" | sort -u)
-for d in $dirs; do mkdir -p "$d"; done
-( cd /tmp && timeout 900 bash "$demo" "$src" ); rc=$?
-for d in $dirs; do case "$d" in /tmp/seed*_scratch) rm -rf "$d";; esac; done
+demo=$(ls /verif/seeded/"$name"/demo.sh 2>/dev/null || ls /verif/seeded/"$name"/demo* | head -1)
+made=()
+for d in $(grep -oh "/tmp/seed[0-9]*_C[0-9]*_scratch" "$demo" | sort -u); do
+  [ -d "$d" ] || { mkdir -p "$d"; made+=("$d"); }
+done
+timeout 900 bash "$demo" "$src"; rc=$?
+for d in "${made[@]:-}"; do [ -n "$d" ] && rm -rf "$d"; done
 exit $rc
